@@ -75,6 +75,11 @@ FAULTS = {
     "splice-not-closed": ["{{p_zz"],
     "macro-call-not-closed": ["m_undefined(1, 2"],
     "text-without-string": [".text 5"],
+    # the same kinds of error far to the right on a long line (beyond columns 256 and 1024)
+    "missing-comma-far-right": [".db " + ", ".join(f"0x{i:02x}" for i in range(70)) + " 0x46"],
+    "missing-close-paren-far-right": [".dw " + ", ".join(f"0x{i:04x}" for i in range(200)) + ", (1 + 2"],
+    "invalid-character-far-right": [".db " + ", ".join(f"0x{i:02x}" for i in range(70)) + ", $"],
+    "undefined-symbol-far-right": [".dl " + ", ".join(f"0x{i:06x}" for i in range(150)) + ", undef_zz"],
     # (not definite errors, hence not injected: a stray `else { }` right after an .if block is its else branch; a line that
     #  starts with a binary operator continues the expression of the previous line -- newlines are plain white space)
 }
